@@ -82,6 +82,11 @@ class RankEval:
         return False
 
     def _is_cdf(self, e):
+        # the pair may be chosen between the caller's and the computed one by a conditional expression or on two branches
+        if isinstance(e, ast.IfExp):
+            return self._is_cdf(e.body) and self._is_cdf(e.orelse)
+        if is_marker(e, '__phi__'):
+            return bool(e.args) and all(self._is_cdf(a) for a in e.args)
         return isinstance(e, ast.Name) and e.id == 'cdf' or (
             isinstance(e, ast.Call) and call_name(e) == M + 'ecdf' and e.args and self.is_sample(e.args[0]))
 
@@ -559,8 +564,9 @@ def rule_pair(ck):
         if cdf is not None and not (isinstance(cdf, ast.Constant)) and not (isinstance(cdf, ast.Tuple) and len(cdf.elts) == 0):
             # must be the ecdf of the same sample
             txt = u(cdf)
-            good = good and ('ecdf(%s)' % g.positional_params[0]) in txt and isinstance(cdf, ast.Tuple) and \
-                len(cdf.elts) == 2 and '0)' in u(cdf.elts[0]) and '1)' in u(cdf.elts[1])
+            whole = isinstance(cdf, ast.Call) and call_name(cdf) == M + 'ecdf' and cdf.args and u(strip_shape(cdf.args[0])) == g.positional_params[0]
+            good = good and (whole or (('ecdf(%s)' % g.positional_params[0]) in txt and isinstance(cdf, ast.Tuple) and
+                                       len(cdf.elts) == 2 and '0)' in u(cdf.elts[0]) and '1)' in u(cdf.elts[1])))
         (o.ok('less_equal_ecdf(x, val, cdf=ecdf(x))') if good else
          o.fail('binned_ecdf evaluates `%s`: sample or precomputed ecdf do not belong to the sample x' % u(c)[:90]))
     o = ck.ob('C09-D3.binned-empty', g, 'empty sample returns None', g.node)
